@@ -1795,15 +1795,16 @@ SENSITIVITY = [
     "attribute setters and in __setitem__/__delitem__/update() of the path, "
     "not when the keybindings dictionary or a referenced path is modified "
     "(seeded change C07-6) -> history/uri-of-live-path-differs-from-uri-of-"
-    "equal-path-built-from-scratch:canonical:after-keybindings-dict (841 "
-    "hits), :after-nested-keybindings-dict (120), :after-nested-keybindings-"
-    "setter (48), :after-nested-item-interface (31), :after-nested-attribute "
-    "(29), :after-several-modifications (46); no other sub-check fires",
+    "equal-path-built-from-scratch:canonical:after-keybindings-dict (656 "
+    "hits), :after-nested-keybindings-dict (96), :after-nested-keybindings-"
+    "setter (43), :after-nested-item-interface (13), :after-nested-attribute "
+    "(19), :after-several-modifications (30); no other sub-check fires",
     "functools.lru_cache on _kbstr_to_cimval: reference keybindings of "
     "different parse results are one shared object (seeded change C07-5) -> "
     "history/from_wbem_uri-result-contains-path-object-of-an-earlier-result "
-    "(122 hits: a text is parsed, a nested path of the result is modified, "
-    "the text is parsed again)",
+    "(89 hits: a text is parsed, a nested path of the result is modified, "
+    "the text is parsed again; the roundtrip sub-check sees the change only "
+    "through the conflation of 1/1.0/True argument hashes)",
 ]
 
 SUBCHECKS = [
